@@ -419,13 +419,13 @@ theorem emit_nonexc (cfg : Cfg) (tl : Bool) (ev : Event) (a s : Nat) (k : Option
     (st : Option StopReason) (c : Option Cause) (cl : Option Classification) :
     ⦃fun _ => ⌜True⌝⦄ emit cfg tl ev a s k e st c cl
     ⦃post⟨fun _ _ => ⌜True⌝, fun e' _ => ⌜e'.isException = false⌝⟩⦄ := by
-  mvcgen [emit, metricHook, askMetric, askLog, ask, swallowException, recordTimeline]
+  mvcgen [emit, metricHook, askMetric, askLog, askHook, swallowException, recordTimeline]
   all_goals simp_all
 
 theorem callBeforeSleep_nonexc (cfg : Cfg) (ctx : BackoffCtx) (s : Nat) :
     ⦃fun _ => ⌜True⌝⦄ callBeforeSleep cfg ctx s
     ⦃post⟨fun _ _ => ⌜True⌝, fun e' _ => ⌜e'.isException = false⌝⟩⦄ := by
-  mvcgen [callBeforeSleep, ask, swallowException]
+  mvcgen [callBeforeSleep, askHook, swallowException]
   all_goals simp_all
 
 /-! ### leaf procedures -/
@@ -792,8 +792,9 @@ theorem emit_retry_spec (cfg : Cfg) (tl : Bool) (n : Nat) (u : View) (kc : EClas
                       (view cfg w).mon.retryEv = cfg.metric⌝,
           fun e w => ⌜Exc cfg e w⌝⟩⦄ := by
   simp only [Gr, Core, ClsC, CntOK] at hc hk
-  mvcgen [emit, metricHook, askMetric, askLog, ask, swallowException, recordTimeline]
+  mvcgen [emit, metricHook, askMetric, askLog, askHook, swallowException, recordTimeline]
   c03_done
+  all_goals (sil_durs; omega)
 
 
 /-- terminal branch of `_handle_failure` (reasons other than the deadline): the reason's condition holds -/
